@@ -3,6 +3,7 @@
 -/
 import CelloProofs.Lemmas.FmtPure
 import CelloProofs.Lemmas.FmtNow
+import CelloProofs.Lemmas.FmtGrammar
 
 namespace Cello.Fmt
 
@@ -133,5 +134,40 @@ theorem refRun_typed (ht : (∀ c ∈ intConvs, firing cfgNow c = [.cint]) ∧ (
             obtain ⟨cs', h1, rfl⟩ := h
             rw [dispatch_now_typed prim shw ht c _ a v hv o]
             simpa [emitAll_cons] using ih (k + 1) cs' _ h1
+
+/-- every specification that has an argument has one of its class (anything for `%$` and `%p`) -/
+def Typed (args : List Obj) : List Seg → Nat → Prop
+  | [], _ => True
+  | .spec _ c :: r, k => (∀ a, args[k]? = some a → c = '$' ∨ (specVal c a).isSome = true) ∧ Typed args r (k + 1)
+  | _ :: r, k => Typed args r k
+
+theorem allOk_of_typed (ht : (∀ c ∈ intConvs, firing cfgNow c = [.cint]) ∧ (∀ c ∈ fltConvs, firing cfgNow c = [.cfloat]) ∧
+      firing cfgNow 'c' = [.cint] ∧ firing cfgNow 's' = [.cstr] ∧ firing cfgNow 'p' = [.obj] ∧ firing cfgNow '$' = [.show])
+    (hs : ∀ a o, (shw a o).2 = .ok) (args : List Obj) :
+    ∀ (segs : List Seg) (k : Nat), Typed args segs k → AllOk cfgNow prim shw args segs k := by
+  intro segs
+  induction segs with
+  | nil => intro k _; trivial
+  | cons s r ih =>
+    intro k h
+    cases s with
+    | lit s => exact ih k h
+    | pct => exact ih k h
+    | spec b c =>
+      refine ⟨fun a ha o => ?_, ih (k + 1) h.2⟩
+      rcases h.1 a ha with hc | hv
+      · subst hc
+        rw [dispatch_eq_runKinds]
+        change (runKinds prim shw (firing cfgNow '$') _ a o).2 = _
+        rw [ht.2.2.2.2.2]
+        have := hs a o
+        simp only [runKinds, action]
+        rcases hsh : shw a o with ⟨o', oc⟩
+        rw [hsh] at this
+        simp only at this
+        subst this
+        rfl
+      · obtain ⟨v, hv⟩ := Option.isSome_iff_exists.1 hv
+        rw [dispatch_now_typed prim shw ht c _ a v hv o]
 
 end Cello.Fmt
